@@ -46,6 +46,7 @@ type Trans struct {
 	Rev  []int `json:"rev"`
 	Wit  Wit   `json:"wit"`
 	Upd  Upd   `json:"upd"`
+	Act1 *Act  `json:"act1,omitempty"` // two-step sequences: a failing first call on the same objects
 	Act  Act   `json:"act"`
 	Pwit Wit   `json:"pwit"`
 	Pupd Upd   `json:"pupd"`
@@ -239,6 +240,8 @@ func replay(a *hx.Args, res *hx.Result) {
 			pool = append(pool, big.Convert(p))
 		}
 	}
+	pool2 := pool[8:]
+	pool = pool[:8]
 	worlds := map[string]*world{}
 	var wmu sync.Mutex
 	getWorld := func(rev []int) *world {
@@ -265,6 +268,23 @@ func replay(a *hx.Args, res *hx.Result) {
 		worlds[key] = w
 		return w
 	}
+	worlds2 := map[string]*world{}
+	getWorld2 := func(rev []int) *world { // another accumulator chain of the same length under the same key
+		key := fmt.Sprint(len(rev))
+		wmu.Lock()
+		defer wmu.Unlock()
+		if w, ok := worlds2[key]; ok {
+			return w
+		}
+		w := newWorld(kp)
+		for i := range rev {
+			if err := w.revoke(pool2[i]); err != nil {
+				hx.Fatal("Remove: %v", err)
+			}
+		}
+		worlds2[key] = w
+		return w
+	}
 	dedup := map[string]bool{}
 	var cases []Trans
 	for _, l := range lines {
@@ -273,7 +293,7 @@ func replay(a *hx.Args, res *hx.Result) {
 			hx.Fatal("bad transition: %v", err)
 		}
 		key := string(l)
-		if t.Act.Op == "prepend" { // independent of the witness
+		if t.Act1 == nil && t.Act.Op == "prepend" { // independent of the witness
 			t.Wit, t.Pwit = Wit{}, Wit{}
 			b, _ := json.Marshal(t)
 			key = string(b)
@@ -287,6 +307,10 @@ func replay(a *hx.Args, res *hx.Result) {
 	hx.Parallel(len(cases), func(i int) {
 		t := cases[i]
 		w := getWorld(t.Rev)
+		if t.Act1 != nil {
+			replaySeq(w, getWorld2(t.Rev), pool[0], t, res)
+			return
+		}
 		switch t.Act.Op {
 		case "apply":
 			replayApply(w, pool[0], t, res)
@@ -361,5 +385,50 @@ func replayPrepend(w *world, t Trans, res *hx.Result) {
 	}
 	if _, verr := upd.Verify(w.kp.PK); verr != nil {
 		res.Violation("prepend-broke-update", fmt.Sprintf("update does not verify after Prepend (err=%v): %v", err, verr), hx.M{"case": t})
+	}
+}
+
+// replaySeq: a failing first call (Apply, Prepend or Prepend of a foreign list) and then Apply, on the same real objects.
+func replaySeq(w, foreign *world, e *big.Int, t Trans, res *hx.Result) {
+	wit := w.witness(e, t.Wit.Idx, t.Wit.T, t.Wit.Good)
+	upd := w.update(t.Upd.First, t.Upd.Last, t.Upd.T, t.Upd.Memo)
+	before := snap(wit)
+	var err1 error
+	panicked, msg := hx.Try(func() {
+		switch t.Act1.Op {
+		case "apply":
+			err1 = wit.Update(w.kp.PK, upd)
+		case "prepend":
+			err1 = upd.Prepend(w.eventlist(t.Act1.G, t.Act1.H, t.Act1.P))
+		case "prependforeign":
+			err1 = upd.Prepend(foreign.eventlist(t.Act1.G, t.Act1.H, t.Act1.P))
+		}
+	})
+	res.Eval(fmt.Sprintf("seq/%v/%v/%v/%v/%s", t.Rev, t.Wit, t.Upd, *t.Act1, t.Act.Res))
+	res.Count("seq:" + t.Act1.Op + ":" + t.Act1.Res + ":" + t.Act.Res)
+	if panicked {
+		res.Violation("seq-panic", "first call panicked: "+msg, hx.M{"case": t})
+		return
+	}
+	if err1 == nil {
+		res.Violation("seq-first-call-diverges", fmt.Sprintf("spec: %s %s fails, code: succeeded", t.Act1.Op, t.Act1.Res), hx.M{"case": t})
+		return
+	}
+	if snap(wit) != before {
+		res.Violation("failed-update-changed-witness", fmt.Sprintf("%s returned %v but changed the witness", t.Act1.Op, err1), hx.M{"case": t})
+		return
+	}
+	var err error
+	panicked, msg = hx.Try(func() { err = wit.Update(w.kp.PK, upd) })
+	if panicked {
+		res.Violation("apply-panic", "Witness.Update panicked after a failed call: "+msg, hx.M{"case": t})
+		return
+	}
+	after := snap(wit)
+	got := hx.M{"class": errClass(err), "idx": after.idx, "t": after.t, "valid": w.valid(wit)}
+	want := hx.M{"class": specClass(t.Act.Res), "idx": t.Pwit.Idx, "t": t.Pwit.T, "valid": t.Pwit.Good}
+	if got["class"] != want["class"] || got["idx"] != want["idx"] || got["t"] != want["t"] || got["valid"] != want["valid"] {
+		res.Violation("state-left-by-failed-call", fmt.Sprintf("after a failed %s (%v) Witness.Update: spec %s -> %v, code -> %v (err=%v)",
+			t.Act1.Op, err1, t.Act.Res, want, got, err), hx.M{"case": t, "observed": got, "expected": want})
 	}
 }
